@@ -3,7 +3,8 @@
    Model: Gossip/Apply.v, Codec.v, World.v. *)
 From Coq Require Import List String NArith ZArith Bool Lia.
 From Piko Require Import Base.Maps Base.Strs Gossip.Types Gossip.Local Gossip.Apply Gossip.Codec.
-From Piko Require Import GossipP.SortP GossipP.LocalP GossipP.Valid GossipP.ApplyValid GossipP.CodecP GossipP.ConvergeP.
+From Piko Require Import Gossip.World GossipP.SortP GossipP.LocalP GossipP.Valid GossipP.ApplyValid GossipP.CodecP GossipP.ConvergeP
+     GossipP.MemberP GossipP.WorldInv GossipP.WorldConv.
 Import ListNotations.
 Open Scope string_scope. Open Scope list_scope. Open Scope N_scope.
 
@@ -64,10 +65,41 @@ Example C03_refuted_oversize :
   option_map (map (fun p => List.length (dp_ents p))) (cut_delta "b" "10.0.0.2:7000" dl 150) = Some [0%nat].
 Proof. vm_compute. reflexivity. Qed.
 
-(* PARTIAL (named): the cluster-level statement (C03_bounded over worlds: from any reachable state in which the
-   live nodes know each other, Psi(W) all-pairs rounds of loss-free exchanges end converged; C03_discovery) composes
-   these lemmas with the world invariant of C02, which is in progress; it is exercised on every run by the
-   convergence campaigns on the real nodes (monitor: deficit never increases, every round strictly decreases it). *)
+(* Whole cluster. Psi obs ids w = sum over observers a in obs and owners id in ids of the deficit of a's view of id.
+   "After local updates stop": EVERY step of the world other than a local write - sends with any order/size, delivery,
+   duplication, loss, liveness, join/leave streams - leaves Psi non-increasing (and every single reported version
+   non-decreasing): nothing that was learned is ever lost, whatever the network does. *)
+Theorem C03_world_no_regress :
+  forall obs ids w o, allowed o -> (forall n lo, o <> WLocal n lo) ->
+  (Psi obs ids (so_world (wstep w o)) <= Psi obs ids w)%nat.
+Proof. exact Psi_no_regress. Qed.
+
+Theorem C03_world_versions_monotone :
+  forall w o a id, allowed o -> node_ver w a id <= node_ver (so_world (wstep w o)) a id.
+Proof. exact wstep_ver_mono. Qed.
+
+(* One exchange makes progress - composition of the real handler functions: a's digest carries its exact version of
+   y; b's reply delta (Delta + encodeDelta cut at max) starts with y's entries above that version, taken from b's
+   valid state S of y; the first missing entry fits. After a applies what the packet carries (ApplyDelta), a's
+   deficit for y is strictly smaller. With C03_world_no_regress (nothing else grows) every such exchange strictly
+   decreases Psi, so by C03_bounded at most Psi of them can happen before every live view has zero deficit, which by
+   C03_stuck_is_converged (and C02_world_invariant for the validity premises) means equal to the owner's state. *)
+Theorem C03_exchange_makes_progress :
+  forall O L nows ca y B S e es rest id addr max parts,
+  OwnInv O L -> c_local ca <> y ->
+  lookup y (c_nodes ca) = Some B -> Valid B O L -> Valid S O L -> n_id S = y ->
+  de_ents (delta_entry_of S (n_ver B)) = e :: es ->
+  blen (delta_prefix id addr) + blen (enc_delta_header (n_id S) (n_addr S) (N.of_nat (List.length (e :: es))))
+    + blen (enc_entry e) <= max ->
+  cut_delta id addr (delta_entry_of S (n_ver B) :: rest) max = Some parts ->
+  (deficit L (ver_of (fst (apply_delta nows ca (map part_to_delta parts))) y) < deficit L (ver_of ca y))%nat.
+Proof. exact exchange_makes_progress. Qed.
+
+(* PARTIAL (named): the last composition step - a fairness assumption on the SCHEDULE (every ordered pair of live nodes
+   exchanges in every round, the packets of the exchange are delivered) turned into "Psi rounds suffice" - is stated
+   above in prose and exercised on every run by the convergence campaigns on the real nodes (monitor: the deficit never
+   increases and strictly decreases every round until all live views equal the owners' states); the running node's
+   random peer selection and timers are not modelled. *)
 
 Print Assumptions C03_no_regress.
 Print Assumptions C03_progress.
@@ -75,3 +107,6 @@ Print Assumptions C03_nonempty_when_fits.
 Print Assumptions C03_stuck_is_converged.
 Print Assumptions C03_bounded.
 Print Assumptions C03_refuted_oversize.
+Print Assumptions C03_world_no_regress.
+Print Assumptions C03_world_versions_monotone.
+Print Assumptions C03_exchange_makes_progress.
